@@ -133,6 +133,12 @@ pub(crate) use vcover;
 pub mod model;
 pub mod api;
 pub mod env;
+pub mod cachex;
+pub mod accessx;
+#[cfg(feature = "serde")]
+pub mod serdex;
+#[cfg(feature = "internal-test-strategies")]
+pub mod rwlockx;
 pub mod refcnt;
 #[cfg(not(kani))]
 pub mod replay;
